@@ -14,7 +14,7 @@ open Pithos Pithos.Proto Pithos.Ascii Pithos.NetParse Pithos.ProxyTrust
 
 /-- Which variant of the code the tie compares against.
 FLIP to `true` once fixes/C32-unusable-cidr-list-trusts-nobody.patch is committed in /repo. -/
-def implRepaired : Bool := false
+def implRepaired : Bool := true
 
 def unhexL (s : String) : List Char := ((unhex s).getD []).map fun b => Char.ofNat b.toNat
 
